@@ -4,7 +4,10 @@ import (
 	"encoding/hex"
 	"fmt"
 	"math/rand"
+	"os"
+	"runtime"
 	"strings"
+	"time"
 )
 
 // hex protocol: "=" empty (non-nil), "-" nil, else lowercase hex
@@ -95,3 +98,24 @@ func (g *gen) key() []byte {
 }
 
 func join(parts ...string) string { return strings.Join(parts, " ") }
+
+// patience stretches a watchdog or wait bound when the machine is overloaded (load average above the number of CPUs), so that
+// a slow environment is not mistaken for a hang: d * clamp(load1/ncpu, 1, 12). It never shortens a bound.
+func patience(d time.Duration) time.Duration {
+	b, err := os.ReadFile("/proc/loadavg")
+	if err != nil {
+		return d
+	}
+	var l1 float64
+	if _, err := fmt.Sscanf(string(b), "%f", &l1); err != nil {
+		return d
+	}
+	f := l1 / float64(runtime.NumCPU())
+	if f < 1 {
+		f = 1
+	}
+	if f > 12 {
+		f = 12
+	}
+	return time.Duration(float64(d) * f)
+}
